@@ -108,6 +108,22 @@ func gen17(seed int64, tier string) []drv.Case {
 			p.Cache = []int{leaf, 2 * leaf, 50 << 20}[r.Intn(3)]
 			p.Prefetch = []int{0, 0, 2}[r.Intn(3)]
 		}
+		if i%5 == 3 {
+			// deep chains: single entries that imply 8..40 directory levels nobody has seen before, and siblings deep inside
+			for k := 0; k < 1+r.Intn(3); k++ {
+				depth := []int{7, 8, 9, 12, 16, 17, 24, 40}[r.Intn(8)]
+				var comps []string
+				for d := 0; d < depth; d++ {
+					comps = append(comps, fmt.Sprintf("%c%d", 'a'+rune(k), d))
+				}
+				dir := strings.Join(comps, "/")
+				p.Files = append(p.Files, fileSpec{Path: dir + "/leaf-file", Len: r.Intn(300)})
+				if r.Intn(2) == 0 {
+					p.Files = append(p.Files, fileSpec{Path: strings.Join(comps[:depth/2], "/") + "/half-way", Len: r.Intn(50)})
+				}
+			}
+			r.Shuffle(len(p.Files), func(a, b int) { p.Files[a], p.Files[b] = p.Files[b], p.Files[a] })
+		}
 		p.Via = "upload"
 		if i%7 == 5 && nf > 0 && nf < 60 {
 			p.Via = "mutable-commit"
@@ -127,6 +143,9 @@ func gen17(seed int64, tier string) []drv.Case {
 		}
 		if nf == 0 {
 			cls += "+empty-bundle"
+		}
+		if i%5 == 3 {
+			cls += "+deep-chains"
 		}
 		cs = append(cs, drv.Case{ID: fmt.Sprintf("%s-%d", cls, i), Class: cls, Params: drv.MustJSON(p)})
 	}
